@@ -5,14 +5,19 @@
        "completed" / "diverged" / "unreplayable" are not violations.
    kind "stress": queries against epochs that stay loaded, concurrent with add / replace / remove of other epochs:
        every answer equals the idle-server answer, every listing is strictly descending (sorted newest first,
-       duplicate-free) and contains the stable epochs, and everything completes. *)
+       duplicate-free) and contains the stable epochs, and everything completes.
+   kind "linpair": see Accept. *)
 EXTENDS Naturals, Sequences, TLC, Json
 Trace == ndJsonDeserialize("obs.ndjson")
 VARIABLE l
 Descending(s) == \A i \in 1..(Len(s) - 1) : s[i] > s[i + 1]
 Contains(s, x) == \E i \in 1..Len(s) : s[i] = x
+\* kind "linpair": two epoch-set mutators, the first parked between two of its own critical sections (when it has more than
+\*     one) while the second runs to completion: replies, served epochs and closed Epoch objects must equal those of one of
+\*     the two sequential orders executed on the same real code (whose sequential meaning is validated against EpochOps).
 Accept(r) ==
     IF r.kind = "replay" THEN r.outcome # "hang"
+    ELSE IF r.kind = "linpair" THEN r.outcome = "completed" /\ (r.inter = r.seq12 \/ r.inter = r.seq21)
     ELSE /\ r.outcome = "completed"
          /\ \A i \in 1..Len(r.pairs) : r.pairs[i].idle = r.pairs[i].stress
          /\ \A i \in 1..Len(r.listings) : Descending(r.listings[i]) /\ \A k \in 1..Len(r.stable) : Contains(r.listings[i], r.stable[k])
